@@ -43,6 +43,16 @@ TECHNIQUE = "use-def of read results + writer/reader (regex language) agreement 
 DESIGN_REF = "DESIGN.md section 3 / C19"
 
 
+def _roles(ctx, fi):
+    """Actual local names playing the roles line / match / announced length in IMAPClient.start (rename-invariant)."""
+    from .common import pm_of
+
+    pm = pm_of(ctx.p, fi)
+    ok = pm.has("msg = await self.reader.readuntil(self.LINE_TERMINATOR)") and pm.has("m = RE_LITERAL_STRING_START.search(msg)") and pm.has("literal_str_length = int(m.group(1))")
+    ctx.require(ok, "IMAPClient.start: line read / literal detection / announced length not found")
+    return {"msg": pm.name("msg"), "m": pm.name("m"), "L": pm.name("literal_str_length"), "pm": pm}
+
+
 def _stmt(n, fi):
     par = parmap(fi)
     while not isinstance(n, ast.stmt):
@@ -74,7 +84,8 @@ def r19_1(ctx):
                 ctx.ok("R19.1", where(fi), f"{norm(st, 70)}: result bound")
     ctx.floor("R19.1", n, 2, "reader calls in the front-end loop")
     # refused non-synchronising literal: its data must be consumed by count (otherwise literal octets are parsed as commands)
-    big = [s for s in body_walk(fi.node) if isinstance(s, ast.If) and "literal_str_length > MAX_INPUT_SIZE" in norm(s.test)]
+    R = _roles(ctx, fi)
+    big = [s for s in body_walk(fi.node) if isinstance(s, ast.If) and f"{R['L']} > MAX_INPUT_SIZE" in norm(s.test)]
     ctx.require(big, "start(): over-limit literal arm not found")
     arm = big[0]
     txt = " ".join(norm(s, 600) for s in arm.body)
@@ -173,7 +184,9 @@ def r19_3(ctx):
         # the template "{<digits>}" before "\n" must be in the reader's language: group 1 digits-only, braces literal
         accepts = rl.group_digits_only(pat, 1) and pat.startswith("\\{") and ("\\}" in pat)
         rt = norm(r.node, 30000)
-        reads = "msg = await self.reader.readuntil(self.LINE_TERMINATOR)" in rt and "m = RE_LITERAL_STRING_START.search(msg)" in rt and "length = int(m.group(1))" in rt and "await self.reader.readexactly(length)" in rt
+        from .common import pm_of
+        prr = pm_of(p, r)
+        reads = prr.has("msg = await self.reader.readuntil(self.LINE_TERMINATOR)") and prr.has("m = RE_LITERAL_STRING_START.search(msg)") and prr.has("length = int(m.group(1))") and prr.has("await self.reader.readexactly(length)")
         lt = [s for s in p.cls(r.cls).node.body if isinstance(s, ast.Assign) and norm(s.targets[0]) == "LINE_TERMINATOR"]
         term_ok = lt and isinstance(lt[0].value, ast.Constant) and lt[0].value.value == b"\n"
         if accepts and reads and term_ok:
@@ -182,7 +195,9 @@ def r19_3(ctx):
             ctx.bad("R19.3", r.module, r.qual, f"/{pat}/ + readexactly(length)", "the proxy's de-framing no longer matches the front end's frame format", r.node.lineno)
     # MAX_INPUT_SIZE guard on the proxy side
     r = p.func("user_server.IMAPClientProxy.run")
-    if "if length > MAX_INPUT_SIZE" in norm(r.node, 30000):
+    from .common import pm_of
+    prx = pm_of(p, r)
+    if prx.has("length = int(m.group(1))") and prx.has("if length > MAX_INPUT_SIZE:\n    ...") and prx.has("await self.reader.readexactly(length)"):
         ctx.ok("R19.3", where(r), "frame length bounded by MAX_INPUT_SIZE before readexactly", nontrivial=False)
     else:
         ctx.bad("R19.3", r.module, r.qual, "if length > MAX_INPUT_SIZE", "proxy no longer bounds the frame length", r.node.lineno)
@@ -228,11 +243,14 @@ def r19_4(ctx):
         ctx.bad("R19.4", fi.module, fi.qual, "self.ibuffer = []; self.ibuffer_size = 0", "buffer and size counter are not reset together", fi.node.lineno)
     # the complete command is b"".join(ibuffer), handed over exactly once per command, then reset
     t = norm(fi.node, 40000)
-    if "msg = b''.join(self.ibuffer)" in t and "client_connected = await self.subprocess_intf.message(msg)" in t:
+    from .common import pm_of
+    pj = pm_of(p, fi)
+    if pj.has("msg = b''.join(self.ibuffer)") and pj.has("client_connected = await self.subprocess_intf.message(msg)"):
         ctx.ok("R19.4", where(fi), "assembled command = b''.join(ibuffer) handed to the message processor")
     else:
         ctx.bad("R19.4", fi.module, fi.qual, "b''.join(self.ibuffer)", "the assembled command is no longer the concatenation of the buffered pieces", fi.node.lineno)
-    for lim in ("self.ibuffer_size > MAX_INPUT_SIZE", "literal_str_length > MAX_INPUT_SIZE"):
+    R = _roles(ctx, fi)
+    for lim in ("self.ibuffer_size > MAX_INPUT_SIZE", f"{R['L']} > MAX_INPUT_SIZE"):
         if lim in t:
             ctx.ok("R19.4", where(fi), f"limit test `{lim}` present", nontrivial=False)
         else:
@@ -248,13 +266,15 @@ def r19_5(ctx):
         ctx.bad("R19.5", fi.module, fi.qual, "push(b'+ ...')", f"expected exactly one continuation push, found {len(plus)}", fi.node.lineno)
         return
 
+    R = _roles(ctx, fi)
+
     def cls(e):
         t = norm(e)
-        if t == "m":
+        if t == R["m"]:
             return "lit"
-        if t == "m.group(2)":
+        if t == f"{R['m']}.group(2)":
             return "nonsync"
-        if t == "literal_str_length > MAX_INPUT_SIZE":
+        if t == f"{R['L']} > MAX_INPUT_SIZE":
             return "toobig"
         return None
 
@@ -267,7 +287,7 @@ def r19_5(ctx):
     else:
         ctx.ok("R19.5", where(fi), "'+' only after: literal announced, within limit, synchronising")
     # and conversely the literal read is preceded by '+' on the synchronising path
-    rd = [n.id for n in g.nodes if n.ast is not None and n.kind == "stmt" and "readexactly(literal_str_length)" in norm(n.ast)]
+    rd = [n.id for n in g.nodes if n.ast is not None and n.kind == "stmt" and f"readexactly({R['L']})" in norm(n.ast)]
     ctx.require(rd, "start(): literal read not found")
     hit = flow.feasible_paths_exist(g, heads[0], set(rd), cls, labels=flow.NORMAL, avoid=lambda n: n in plus, accept=lambda t, f: f.get("nonsync") is False)
     ctx.paths_explored += 1
@@ -287,7 +307,9 @@ def r19_6_7(ctx):
     p = ctx.p
     fi = p.func("server.IMAPClient.start")
     t = norm(fi.node, 40000)
-    strips = [s for s in body_walk(fi.node) if isinstance(s, ast.Assign) and norm(s.targets[0]) == "msg" and isinstance(s.value, (ast.Call, ast.Subscript)) and "msg" in names_in(s.value) and "readuntil" not in norm(s.value) and "readexactly" not in norm(s.value) and "join" not in norm(s.value)]
+    R = _roles(ctx, fi)
+    MSG = R["msg"]
+    strips = [s for s in body_walk(fi.node) if isinstance(s, ast.Assign) and norm(s.targets[0]) == MSG and isinstance(s.value, (ast.Call, ast.Subscript)) and MSG in names_in(s.value) and "readuntil" not in norm(s.value) and "readexactly" not in norm(s.value) and "join" not in norm(s.value)]
     if not strips:
         ctx.bad("R19.6", fi.module, fi.qual, "terminator strip", "the line terminator is no longer removed from the line read", fi.node.lineno)
     for s in strips:
@@ -302,17 +324,17 @@ def r19_6_7(ctx):
         else:
             ctx.bad("R19.6", fi.module, fi.qual, norm(s), "the terminator is removed with an operation that also strips the *front* of the line: the line continuing a command after a literal loses its leading space, so `LOGIN {4}\\r\\nfred {6}\\r\\nsesame` is assembled without the separator", s.lineno)
     # R19.7
-    if "msg = await self.reader.readexactly(literal_str_length)" in t:
+    if R["pm"].has("msg2 = await self.reader.readexactly(literal_str_length)") or f"= await self.reader.readexactly({R['L']})" in t:
         ctx.ok("R19.7", where(fi), "literal body read with readexactly(<announced count>)")
     else:
         ctx.bad("R19.7", fi.module, fi.qual, "readexactly(literal_str_length)", "the literal body is not read with readexactly(announced count): read(n) returns whatever is buffered, so a literal split across segments is truncated and its rest parsed as commands", fi.node.lineno)
     srch = [c for c in calls_in(fi.node) if call_name(c) == "search" and "RE_LITERAL_STRING_START" in norm(c.func)]
     ctx.require(srch, "start(): literal detection not found")
-    if all(len(c.args) == 1 and norm(c.args[0]) == "msg" for c in srch) and "literal_str_length = int(m.group(1))" in t:
+    if all(len(c.args) == 1 and norm(c.args[0]) == MSG for c in srch):
         ctx.ok("R19.7", where(fi), "literal pattern searched in the line just read; count = int(group 1)")
     else:
         ctx.bad("R19.7", fi.module, fi.qual, norm(srch[0]), "the literal pattern is searched in something other than the line just read (e.g. the last buffered piece, which may be literal *content* ending in `{n}`)", srch[0].lineno)
-    if "msg = await self.reader.readuntil(self.LINE_TERMINATOR)" in t:
+    if f"{MSG} = await self.reader.readuntil(self.LINE_TERMINATOR)" in t:
         lt = [s for s in p.cls("IMAPClient").node.body if isinstance(s, ast.Assign) and norm(s.targets[0]) == "LINE_TERMINATOR"]
         if lt and isinstance(lt[0].value, ast.Constant) and lt[0].value.value == b"\r\n":
             ctx.ok("R19.7", where(fi), "client lines are read up to CRLF", nontrivial=False)
